@@ -2,9 +2,9 @@
    Model: Model/Config.v, SPDCConfig::try_as_spdc in the code's order of operations with outcome Ok | Err e | Panic site
    (Panic exactly where the code has unwrap()); numerical kernels are oracles.  Every theorem is quantified over the
    numeric carrier, its operations, the unit constants and ALL oracles. *)
-From Coq Require Import String List Bool ZArith QArith.
+From Coq Require Import Reals String List Bool ZArith QArith.
 From SpdVerif Require Import Base.CfgNumOps Spec.ConfigSpec Gen.ConfigTables Gen.ConfigSites Model.ConfigTypes Model.Config Model.NumInst
-  Proofs.C17_rules Proofs.C17_finite Proofs.C17_entry Proofs.C17_current Gen.CfgSteps Proofs.CfgSteps_eq.
+  Proofs.C17_rules Proofs.C17_finite Proofs.C17_entry Proofs.C17_current Gen.CfgSteps Proofs.CfgSteps_eq Model.Cfg_Composed Proofs.Cfg_composed Proofs.Cfg_composed_builtin.
 Import ListNotations.
 
 (* The model IS the source: the statement-by-statement translation of SPDCConfig::try_as_spdc generated from the source
@@ -183,6 +183,53 @@ Theorem C17_ok_finite_or_err_partial : forall num (o : NumOps num) U K minpos (c
   (exists s, try_as_spdc_now o U K minpos c = Ok (s, [])) \/ (exists e, try_as_spdc_now o U K minpos c = Err e).
 Proof. exact now_ok_finite_or_err. Qed.
 
+(* =====================================================================================================================
+   COMPOSED with the generated / proved models of the kernels (C03 optimum idler, C04 auto period / auto angle / Nelder-Mead):
+   oracles_of_model index_of snell_inv sd_theta sd_period is an INSTANCE of the oracle record over the reals, for any index
+   function (Proofs/Compose_index.crystal_index for built-in crystals: C17_no_panic_composed_builtin), any Snell inverse and any
+   termination tests.  Over the reals both simplex searches are total and nm-unit scaling preserves order, so the never-panics
+   theorem has NO oracle hypothesis left except totality of the Snell inverse (property C13).
+   What remains assumed: binary64 vs reals (a NaN cost makes argmin fail: known finding F7b), the Snell inverse. *)
+Theorem C17_no_panic_composed : forall index_of snell_inv sd_theta sd_period U minpos (c : spdc_cfg R),
+  (forall b e cs, snell_inv b e cs <> None) ->
+  is_panic (try_as_spdc_now R_ops U (oracles_of_model index_of snell_inv sd_theta sd_period) minpos c) = false.
+Proof. exact no_panic_composed. Qed.
+
+Theorem C17_no_panic_composed_builtin : forall snell_inv sd_theta sd_period U minpos (c : spdc_cfg R),
+  (forall b e cs, snell_inv b e cs <> None) ->
+  is_panic (try_as_spdc_now R_ops U (oracles_of_model builtin_index_of snell_inv sd_theta sd_period) minpos c) = false.
+Proof. exact no_panic_builtin. Qed.
+
+Theorem C17_ok_finite_or_err_composed_partial : forall index_of snell_inv sd_theta sd_period U minpos (c : spdc_cfg R),
+  (forall b e cs, snell_inv b e cs <> None) ->
+  (forall signal, signal_step R_ops (oracles_of_model index_of snell_inv sd_theta sd_period) c = Ok signal ->
+     dkz_c index_of signal (cfg_pump R_ops c) (cfg_cs0 R_ops c) MI.PPOff <> 0%R) ->
+  (exists s, try_as_spdc_now R_ops U (oracles_of_model index_of snell_inv sd_theta sd_period) minpos c = Ok (s, [])) \/
+  (exists e, try_as_spdc_now R_ops U (oracles_of_model index_of snell_inv sd_theta sd_period) minpos c = Err e).
+Proof. exact ok_finite_or_err_composed. Qed.
+
+(* the model's IdlerBeam::try_new_optimum at the composed instance IS C03's generated optimum_idler: refused exactly when
+   lambda_s <= lambda_p, otherwise the same beam *)
+Theorem C17_idler_is_C03 : forall index_of snell_inv sd_theta sd_period s p cs pp,
+  beam_wf s -> (0 < b_wavelength p)%R ->
+  match MI.optimum_idler (index_of cs) (ipm (cs_pm cs)) (cs_counter cs) (ib s) (ipump p) (ipp pp) with
+  | None => (b_wavelength s <= b_wavelength p)%R /\
+            idler_optimum R_ops (oracles_of_model index_of snell_inv sd_theta sd_period) s p cs pp = Err ESignalLePump
+  | Some i => (b_wavelength p < b_wavelength s)%R /\
+              exists b, idler_optimum R_ops (oracles_of_model index_of snell_inv sd_theta sd_period) s p cs pp = Ok (b, []) /\ ib b = i
+  end.
+Proof. exact idler_composed. Qed.
+
+(* the model's optimum_poling_period at the composed instance IS C04's (early exit, seed, sign, bounds, final test) *)
+Theorem C17_period_is_C04 : forall index_of snell_inv sd_theta sd_period s p cs,
+  signal_le_pump R_ops s p = false ->
+  match MA.optimum_poling_period (dkz_c index_of s p cs) MA.real_ops sd_period (cs_length cs) with
+  | MA.AutoInfinite => optimum_poling_period R_ops (oracles_of_model index_of snell_inv sd_theta sd_period) GA.opp_min_period s p cs = Ok (inr tt)
+  | MA.AutoErr => optimum_poling_period R_ops (oracles_of_model index_of snell_inv sd_theta sd_period) GA.opp_min_period s p cs = Err EImpossiblePeriod
+  | MA.AutoOk v => optimum_poling_period R_ops (oracles_of_model index_of snell_inv sd_theta sd_period) GA.opp_min_period s p cs = Ok (inl v)
+  end.
+Proof. exact period_composed. Qed.
+
 (* ---- non-vacuity: the hypotheses are satisfiable (concrete configuration and oracles at the Q instance) *)
 Local Open Scope Q_scope.
 Definition ex_units : units Q := {| u_milliw := 1; u_volt := 1000 |}.
@@ -230,6 +277,14 @@ Example C17_ex_bad_period : try_as_spdc_now Q_ops ex_units ex_oracles (1 # 10000
 Proof. vm_compute. reflexivity. Qed.
 
 Print Assumptions C17_try_as_spdc_is_generated.
+Example C17_ex_snell_total : exists si : beam R -> R -> crystal_setup R -> option R, forall b e cs, si b e cs <> None.
+Proof. exact snell_total_example. Qed.
+
+Print Assumptions C17_no_panic_composed.
+Print Assumptions C17_no_panic_composed_builtin.
+Print Assumptions C17_ok_finite_or_err_composed_partial.
+Print Assumptions C17_idler_is_C03.
+Print Assumptions C17_period_is_C04.
 Print Assumptions C17_flags_now.
 Print Assumptions C17_rule_signal_le_pump.
 Print Assumptions C17_rule_signal_angles_now.
